@@ -7,9 +7,10 @@ HBIN = "/verif/harness_arr/target/release/slarr"
 DRIVER = "/verif/lean/.lake/build/bin/slvarr"
 THEOREMS = ["C17_index", "C17_index_labelled", "C17_oob_refused", "C17_write_frame", "C17_write_frame_labelled",
             "C17_from_iter", "C17_from_iter_labelled", "C17_from_fn", "C17_from_fn_labelled",
-            "C17_iter_complete", "C17_iter_complete_labelled", "C17_ragged_observation",
+            "C17_iter_complete", "C17_iter_complete_labelled", "C17_iter_mut", "C17_ragged_observation",
             "C17_iter_with", "C17_iter_with_labelled", "C17_down", "C17_clone_eq",
-            "C17_conv_asref_zeros_default", "C17_product", "C17_try_from_first_error", "C17_labelled_shape"]
+            "C17_conv_asref_zeros_default", "C17_product", "C17_try_from_first_error", "C17_labelled_shape",
+            "C17_programs", "C17_programs_defined"]
 RULE = ("array programs (build from fn / flat / nested, get, set via index_mut, iter_mut, down/down_mut, clone, ==, swap, "
         "conv, as_ref, zeros/default, product2/3(_iter), try_from with failing cells, iter / iter_with / index dumps, "
         "indexes/keys) on every shape with each dimension in 0..3 (quick) / 0..4 (thorough), ranks 1..3, unlabelled + "
@@ -53,5 +54,13 @@ ASSUMPTIONS = [
     "unlabelled MArr1::from_iter does not check its length (the property claims shape safety for labelled constructors only): "
     "programs that build ragged unlabelled storage are compared with the model but leave the flat specification (oracle stops)",
 ]
-LEVEL_TEXT = ("Kernel-checked refinement of the nested model to a flat row-major vector, tied to the code by differential "
-              "execution of array programs on the real types with a dump after every step.")
+LEVEL_TEXT = ("Kernel-checked refinement of the nested model (both families, ranks 1..3, every shape and cell content) to a flat "
+              "row-major list: from_fn stores f(k) at k, from_iter / nested construction fill row-major (with the exact panic "
+              "conditions), index = cell at the row-major position, out-of-shape indices are refused, a write changes exactly one "
+              "position, the Iter / IterMut state machines yield every cell once in order and are fused (under the shape "
+              "invariant, which every labelled constructor establishes), iter_with pairs lexList with the cells, down / down_mut "
+              "are slices, clone / == / conv / as_ref / zeros / products / try_from (first error wins) preserve contents and "
+              "order; lifted by induction over the op list to EVERY program of the harness' op language (C17_programs: nested "
+              "model trace = flat specification trace). The model is tied to the code by executing random and hand-written "
+              "programs on the real types for every shape with a dump after every step; the flat specification is also "
+              "evaluated directly against the implementation's observations.")
